@@ -23,6 +23,7 @@ def requests():
         Request(SRC, fn=["stir::OSMAPOSLReconstruction::update_estimate"]),
         Request(SRC, fn=["stir::OSMAPOSLReconstruction::apply_multiplicative_update", "stir::divide"], files=["/repo/src/iterative/OSMAPOSL/.*", "/repo/src/include/stir/numerics/divide.inl"]),
         Request(SRC, fn=["stir::OSMAPOSLReconstruction::set_up"]),
+        Request("src/recon_buildblock/IterativeReconstruction.cxx", fn=["stir::IterativeReconstruction::get_subset_num", "stir::IterativeReconstruction::end_of_iteration_processing"]),
     ]
 
 
@@ -169,6 +170,41 @@ def rule_d_filters_keep_positivity(ctx, f):
 
         w = cfg.must_pass_from_entry(sets, chains)
         ctx.ob("C07.d-filters-keep-positivity", f.qn, fld, w is None, sets[0].where(), "whenever %s is used it has been wrapped as Chained(filter, positivity thresholding), on every path" % fld if w is None else "a path sets up and uses %s without chaining the positivity thresholding after it: negative filter lobes enter the estimate" % fld)
+        n += 1
+    return n
+
+
+def rule_e_restartable_schedule(ctx, fns):
+    """A run resumed at sub-iteration k+1 repeats the uninterrupted run only if everything a sub-iteration does is a function of the
+    sub-iteration NUMBER (and of settings both runs share), not of where the run started: the subset a sub-iteration uses
+    (get_subset_num, ordered schedule) and the decisions of end_of_iteration_processing (filter / save intervals) must not depend on
+    start_subiteration_num."""
+    n = 0
+    seen = set()
+    for f in fns:
+        if f.body is None or f.is_dependent or f.short not in ("get_subset_num", "end_of_iteration_processing") or f.short in seen:
+            continue
+        seen.add(f.short)
+        defs = LocalDefs(f)
+        sub = {d: defs.single_def(d) for d in defs.decl}
+        bad = []
+        if f.short == "get_subset_num":
+            # what is returned and what it is computed from (locals inlined); the random-order branch is excluded (not restartable by
+            # design: a new random order is drawn)
+            for r in f.walk():
+                if r.k == "ReturnStmt" and r.c:
+                    e = r.c[0].strip()
+                    parts = [e]
+                    if e.k == "ConditionalOperator" and "randomise_subset_order" in key(e.c[0]):
+                        parts = [e.c[2]]
+                    for p_ in parts:
+                        if "this.start_subiteration_num" in key(p_.strip(), False, sub):
+                            bad.append(p_)
+        else:
+            for m in f.walk():
+                if m.k == "IfStmt" and m.c and "this.start_subiteration_num" in key(m.c[0].strip(), False, sub):
+                    bad.append(m.c[0])
+        ctx.ob("C07.e-restartable-schedule", f.qn, "independent-of-start-subiteration", not bad, (bad[0] if bad else f).where(), "what sub-iteration k does depends on k and shared settings only" if not bad else "`%s` depends on start_subiteration_num: a run resumed at sub-iteration k+1 does something else at sub-iteration k+1 than the uninterrupted run" % key(bad[0].strip(), True)[:160])
         n += 1
     return n
 
@@ -328,5 +364,10 @@ def run(ctx):
     else:
         rule_d_filters_keep_positivity(ctx, su[0])
         ctx.require_count("C07.d-filters-keep-positivity", 2)
+    u4 = ctx.ex.get(reqs[3])
+    if u4 is None:
+        return
+    rule_e_restartable_schedule(ctx, u4.functions)
+    ctx.require_count("C07.e-restartable-schedule", 2)
     ctx.require_count("C07.a-subiteration-structure", 2)
     ctx.require_count("C07.b-MAP-denominator", 4)
